@@ -30,11 +30,6 @@ import json
 from collections import Counter
 
 sys.path.insert(0, os.path.dirname(os.path.dirname(os.path.abspath(__file__))))
-# the repository's pinned third-party versions (asttokens 3.x, astroid) live in /venv; the overlay
-# venv may shadow some of them with other versions, so /venv's site-packages go first
-_PROD_SITE = "/venv/lib/python3.12/site-packages"
-if os.path.isdir(os.path.join(_PROD_SITE, "asttokens")) and sys.path[0] != _PROD_SITE:
-  sys.path.insert(0, _PROD_SITE)
 from vlib import common
 from vlib.rtc import eng, explore, gen
 
@@ -455,7 +450,6 @@ def main():
     "non-trivial = the bundle's reference run had a permutation space > 1 (at least one call of "
     "_make_sorted_work_items with >= 2 permutable nodes)")
   import tempfile, shutil, glob
-  eng.new_engine()      # warm-up in the parent (astroid import state is inherited by the workers)
   stats_dir = tempfile.mkdtemp(prefix="verif-c06-")
   os.environ["C06_STATS_DIR"] = stats_dir
   try:
